@@ -10,7 +10,8 @@ Inductive sop :=
 | OPick (r : hreq)
 | OCPick (n : Z)           (* n picks issued by concurrent goroutines (round robin) *)
 | OJump (key n : Z)        (* jumpHash(key, n) called directly *)
-| OPickI (xff xri remote : Z).  (* pick whose header strings are indices into the case's string table *)
+| OPickI (xff xri remote : Z)   (* pick whose header strings are indices into the case's string table *)
+| OCtr (v : Z).             (* the round-robin rotation counter is set to v (harness hook) *)
 
 Record str_case := mkStrCase { sc_kind : Z; sc_tab : list (list Z); sc_ops0 : list sop; sc_obs : list (list Z) }.
 
@@ -52,6 +53,7 @@ Definition str_step (s : sstate) (nadd : Z) (o : sop) : sstate * list Z * Z :=
   | OCPick n => let '(l, s') := picks_n (Z.to_nat n) s in (s', counts_upto (Z.to_nat nadd) l, nadd)
   | OJump key n => (s, [match jump_hash key n with Some r => r | None => -2 end], nadd)
   | OPickI _ _ _ => (s, [], nadd)
+  | OCtr v => ({| skd := skd s; spool := spool s; sctr := v |}, [], nadd)
   end.
 
 Fixpoint str_run (s : sstate) (nadd : Z) (ops : list sop) : list (list Z) :=
@@ -96,6 +98,7 @@ Record smon := {
   sm_wx : bool * bool * bool;    (* WRR: the proved bound 2(n-1)W_T held; the stated bound 2W_T failed in the known class (five or more
                                     members, after health changes, within the proved bound); it failed outside that class *)
   sm_ok_aff : bool; sm_ok_valid : bool; sm_ok_remap : bool;
+  sm_ok_some : bool;             (* every pick of every strategy: an eligible member, or none only when no member is eligible *)
   sm_nt5 : bool; sm_nt6 : bool
 }.
 
@@ -149,7 +152,7 @@ Definition sm_change (m : smon) (s' : sstate) (appended : Z) (removed flagchg : 
      sm_fresh := (match skd s' with WRR => removed || (sm_fresh m && is_nil (sm_stretch m)) | _ => false end);
      sm_removed := sm_removed m || removed; sm_changed_flags := sm_changed_flags m || flagchg;
      sm_seen := []; sm_prev := sm_seen m; sm_appended := appended; sm_lastjump := sm_lastjump m; sm_ok_jump := sm_ok_jump m;
-     sm_ok_rr := sm_ok_rr m; sm_ok_wrr_exact := sm_ok_wrr_exact m; sm_ok_wrr_bound := sm_ok_wrr_bound m; sm_wx := sm_wx m;
+     sm_ok_rr := sm_ok_rr m; sm_ok_wrr_exact := sm_ok_wrr_exact m; sm_ok_wrr_bound := sm_ok_wrr_bound m; sm_wx := sm_wx m; sm_ok_some := sm_ok_some m;
      sm_ok_lc := sm_ok_lc m; sm_ok_aff := sm_ok_aff m; sm_ok_valid := sm_ok_valid m; sm_ok_remap := sm_ok_remap m;
      sm_nt5 := sm_nt5 m; sm_nt6 := sm_nt6 m |}.
 
@@ -177,6 +180,7 @@ Definition sm_pick (m : smon) (r : hreq) (p : Z) : smon :=
                    let cls := (5 <=? zlen pool) && sm_changed_flags m && proved in
                    (pv && proved, known || (negb stated && cls), other || (negb stated && negb cls))
                | _ => sm_wx m end);
+     sm_ok_some := sm_ok_some m && (if is_nil (healthy pool) then Z.eqb p (-1) else memZ p (flagged_ids pool));
      sm_ok_lc := sm_ok_lc m && (match skd s with LC => lc_min_ok pool p | _ => true end);
      sm_ok_aff := sm_ok_aff m &&
         (if hashk then match lookup_client key (sm_seen m) with Some q => Z.eqb p q | None => true end else true);
@@ -209,7 +213,7 @@ Definition sm_step (m : smon) (o : sop) (ob : list Z) : smon :=
       {| sm_s := s_upd s id (set_active a); sm_stretch := sm_stretch m; sm_fresh := sm_fresh m;
          sm_removed := sm_removed m; sm_changed_flags := sm_changed_flags m;
          sm_seen := sm_seen m; sm_prev := sm_prev m; sm_appended := sm_appended m; sm_lastjump := sm_lastjump m; sm_ok_jump := sm_ok_jump m;
-         sm_ok_rr := sm_ok_rr m; sm_ok_wrr_exact := sm_ok_wrr_exact m; sm_ok_wrr_bound := sm_ok_wrr_bound m; sm_wx := sm_wx m;
+         sm_ok_rr := sm_ok_rr m; sm_ok_wrr_exact := sm_ok_wrr_exact m; sm_ok_wrr_bound := sm_ok_wrr_bound m; sm_wx := sm_wx m; sm_ok_some := sm_ok_some m;
          sm_ok_lc := sm_ok_lc m; sm_ok_aff := sm_ok_aff m; sm_ok_valid := sm_ok_valid m; sm_ok_remap := sm_ok_remap m;
          sm_nt5 := sm_nt5 m; sm_nt6 := sm_nt6 m |}
   | OPick r => match ob with p :: _ => sm_pick m r p | [] => m end
@@ -217,14 +221,23 @@ Definition sm_step (m : smon) (o : sop) (ob : list Z) : smon :=
       (* concurrent round-robin picks: n = k * len(pool) picks must give every backend exactly k *)
       let pool := spool s in
       let len := zlen pool in
-      let ok := if (0 <? len) && Z.eqb (n mod len) 0 && all_flagged pool then
-                  forallb (fun b => Z.eqb (nth (Z.to_nat (bid b - 1)) ob 0) (n / len)) pool
-                else true in
+      let ok := match skd s with
+                | RR => if (0 <? len) && Z.eqb (n mod len) 0 && all_flagged pool then
+                          forallb (fun b => Z.eqb (nth (Z.to_nat (bid b - 1)) ob 0) (n / len)) pool
+                        else true
+                | _ => true end in
+      (* concurrent weighted picks from a fresh pool: a pick is one critical section, so n = k * W picks give backend i exactly k * w_i *)
+      let w := total_weight pool in
+      let okw := match skd s with
+                 | WRR => if sm_fresh m && is_nil (sm_stretch m) && all_flagged pool && (0 <? w) && Z.eqb (n mod w) 0 then
+                            forallb (fun b => Z.eqb (nth (Z.to_nat (bid b - 1)) ob 0) (bweight b * (n / w))) pool
+                          else true
+                 | _ => true end in
       let s' := snd (picks_n (Z.to_nat n) s) in
       {| sm_s := s'; sm_stretch := []; sm_fresh := false;
          sm_removed := sm_removed m; sm_changed_flags := sm_changed_flags m;
          sm_seen := sm_seen m; sm_prev := sm_prev m; sm_appended := sm_appended m; sm_lastjump := sm_lastjump m; sm_ok_jump := sm_ok_jump m;
-         sm_ok_rr := sm_ok_rr m && ok; sm_ok_wrr_exact := sm_ok_wrr_exact m; sm_ok_wrr_bound := sm_ok_wrr_bound m; sm_wx := sm_wx m;
+         sm_ok_rr := sm_ok_rr m && ok; sm_ok_wrr_exact := sm_ok_wrr_exact m && okw; sm_ok_wrr_bound := sm_ok_wrr_bound m; sm_wx := sm_wx m; sm_ok_some := sm_ok_some m;
          sm_ok_lc := sm_ok_lc m; sm_ok_aff := sm_ok_aff m; sm_ok_valid := sm_ok_valid m; sm_ok_remap := sm_ok_remap m;
          sm_nt5 := sm_nt5 m || (2 <=? len); sm_nt6 := sm_nt6 m |}
   | OJump key n =>
@@ -236,10 +249,11 @@ Definition sm_step (m : smon) (o : sop) (ob : list Z) : smon :=
          sm_removed := sm_removed m; sm_changed_flags := sm_changed_flags m;
          sm_seen := sm_seen m; sm_prev := sm_prev m; sm_appended := sm_appended m;
          sm_lastjump := (key, n, r); sm_ok_jump := sm_ok_jump m && ok;
-         sm_ok_rr := sm_ok_rr m; sm_ok_wrr_exact := sm_ok_wrr_exact m; sm_ok_wrr_bound := sm_ok_wrr_bound m; sm_wx := sm_wx m;
+         sm_ok_rr := sm_ok_rr m; sm_ok_wrr_exact := sm_ok_wrr_exact m; sm_ok_wrr_bound := sm_ok_wrr_bound m; sm_wx := sm_wx m; sm_ok_some := sm_ok_some m;
          sm_ok_lc := sm_ok_lc m; sm_ok_aff := sm_ok_aff m; sm_ok_valid := sm_ok_valid m; sm_ok_remap := sm_ok_remap m;
          sm_nt5 := sm_nt5 m; sm_nt6 := sm_nt6 m || (2 <=? n) |}
   | OPickI _ _ _ => m
+  | OCtr v => sm_change m {| skd := skd s; spool := spool s; sctr := v |} (-1) false false
   end.
 
 Fixpoint sm_run (m : smon) (ops : list sop) (obs : list (list Z)) : smon :=
@@ -251,13 +265,14 @@ Fixpoint sm_run (m : smon) (ops : list sop) (obs : list (list Z)) : smon :=
 Definition sm_init (k : skind) : smon :=
   {| sm_s := s_init k; sm_stretch := []; sm_fresh := true; sm_removed := false; sm_changed_flags := false;
      sm_seen := []; sm_prev := []; sm_appended := -1; sm_lastjump := (-1, -1, -1); sm_ok_jump := true;
-     sm_ok_rr := true; sm_ok_wrr_exact := true; sm_ok_wrr_bound := true; sm_wx := (true, false, false); sm_ok_lc := true;
+     sm_ok_rr := true; sm_ok_wrr_exact := true; sm_ok_wrr_bound := true; sm_wx := (true, false, false); sm_ok_some := true; sm_ok_lc := true;
      sm_ok_aff := true; sm_ok_valid := true; sm_ok_remap := true; sm_nt5 := false; sm_nt6 := false |}.
 
 (* result vector:
    [ diff; mon_rr; mon_wrr_exact; mon_wrr_bound; mon_lc; mon_affinity; mon_valid; mon_remap;
      cls_wrr_removed (a removal preceded: stale running weights); nt_c05; nt_c06;
-     mon_wrr_proved (the proved bound 2(n-1)W_T/W_E); cls_wrr_flap (every failure of the stated bound 2W_T/W_E is in the known class) ] *)
+     mon_wrr_proved (the proved bound 2(n-1)W_T/W_E); cls_wrr_flap (every failure of the stated bound 2W_T/W_E is in the known class);
+     mon_pick_eligible (every strategy, every pick: an eligible member, none only when none is eligible) ] *)
 Definition eval_str_case (k : str_case) : list Z :=
   let kind := skind_of (sc_kind k) in
   let model := str_run (s_init kind) 0 (sc_ops k) in
@@ -266,4 +281,4 @@ Definition eval_str_case (k : str_case) : list Z :=
     b2z (sm_ok_rr m); b2z (sm_ok_wrr_exact m); b2z (sm_ok_wrr_bound m); b2z (sm_ok_lc m);
     b2z (sm_ok_aff m); b2z (sm_ok_valid m); b2z (sm_ok_remap m && sm_ok_jump m);
     b2z (sm_removed m); b2z (sm_nt5 m); b2z (sm_nt6 m);
-    b2z (fst (fst (sm_wx m))); b2z (snd (fst (sm_wx m)) && negb (snd (sm_wx m))) ].
+    b2z (fst (fst (sm_wx m))); b2z (snd (fst (sm_wx m)) && negb (snd (sm_wx m))); b2z (sm_ok_some m) ].
